@@ -959,7 +959,7 @@ func main() {
 		"SHA-256 and RIPEMD-160 are modelled (Lean executable versions validated here against Go's), theorems are parametric in them",
 		"the independent reference decoder in this harness (refSegwitValid/refB58CheckValid) states BIP173/BIP350/Base58Check",
 	}
-	r.Finish("corpus of BIP173/350 vectors; exhaustive grid hrp{bc,tb} x version 0..17 x program length 0..41 (valid ones also upper-cased, plus checksummed strings with wrong variant / disturbed padding / extra symbol); all 256 Base58 version bytes; 1..4 random edits (substitution, insertion, deletion, case flip, swap, raw byte) of valid addresses; arbitrary short strings; raw base58/bech32 codec inputs; script->address forms (P2PKH, P2SH, P2PK 33/65, witness) and their one-edit neighbours; WIF strings: valid compressed/uncompressed for several version bytes, 1..4 random edits, wrong flag byte / wrong payload length / wrong checksum / flipped payload bit / invalid character / extra leading or trailing character; Base58Check objects that are not addresses offered as addresses (checksummed 26..40-byte payloads, wrapped address payloads, valid WIF keys, extended-key sized, too short); one BtcAddr object re-used over time (history.go: the callers' list_unspent/tap2old sequences, random idiom histories, raw histories; 2..30 steps per object, objects from all four constructors); several callers at once with nothing shared (concurrent.go: 2/4/8/16 goroutines, each with its own 24 encode->decode / decode->re-encode chains - P2PKH/P2SH/P2PK scripts, (version,hash) objects incl. leading-zero hashes, witness scripts, SegwitEncode/bech32.Encode inputs, typed valid addresses, raw Base58 byte strings, WIF keys - families b58addr/segwit/decode/raw58/wif/mixed, run for 120 (thorough 1500) rounds after a common start signal; plus the step-level Lean model of Encodeb58 under a random interleaving, oracle op b58sched). distinct = distinct (operation,input) pairs; every generated case is non-trivial in that it reaches a decoder/encoder",
+	r.Finish("corpus of BIP173/350 vectors; exhaustive grid hrp{bc,tb} x version 0..17 x program length 0..41 (valid ones also upper-cased, plus checksummed strings with wrong variant / disturbed padding / extra symbol); all 256 Base58 version bytes; 1..4 random edits (substitution, insertion, deletion, case flip, swap, raw byte) of valid addresses; arbitrary short strings; raw base58/bech32 codec inputs; script->address forms (P2PKH, P2SH, P2PK 33/65, witness) and their one-edit neighbours; WIF strings: valid compressed/uncompressed for several version bytes, 1..4 random edits, wrong flag byte / wrong payload length / wrong checksum / flipped payload bit / invalid character / extra leading or trailing character; Base58Check objects that are not addresses offered as addresses (checksummed 26..40-byte payloads, wrapped address payloads, valid WIF keys, extended-key sized, too short); one BtcAddr object re-used over time (history.go: the callers' list_unspent/tap2old sequences, random idiom histories, raw histories; 2..30 steps per object, objects from all four constructors); several callers at once with nothing shared (concurrent.go: 2/4/8/16 goroutines, each with its own 24 encode->decode / decode->re-encode chains - P2PKH/P2SH/P2PK scripts, (version,hash) objects incl. leading-zero hashes, witness scripts, SegwitEncode/bech32.Encode inputs, typed valid addresses, raw Base58 byte strings, WIF keys - families b58addr/segwit/decode/raw58/wif/mixed, run for 120 (thorough 1500) rounds after a common start signal; plus the step-level Lean model of Encodeb58 under a random interleaving, oracle op b58sched); typed strings outside ASCII (unicode.go: accepted Base58Check / segwit / raw Base58 / Bech32 / WIF strings with 1, 2..4, every occurrence of one letter, or all characters replaced by a non-ASCII alias of the same character - code points congruent to it mod 256 in 2/3/4-byte encodings, mod 128, the byte c|0x80, over-long forms, full-width forms, Unicode case-fold relatives, inserted zero-width / blank code points - offered to every decoder; Go's range-over-string against its Lean model on UTF-8 boundary strings). distinct = distinct (operation,input) pairs; every generated case is non-trivial in that it reaches a decoder/encoder",
 		"each case is run through the real gocoin functions, the Lean model (oracle_c15) and an independent reference; the property predicate (accepted iff valid; decoded script = denoted script; re-encoding = input up to Bech32 case; script->address->script; P2PK script -> P2PKH address of HASH160(key); WIF accepted iff Base58Check(ver‖key32[‖01]) and String() = input; every String()/OutScript() on a re-used object = the same call on a new object with the same exported fields, and = the denoted destination when the caches are coherent; every result a goroutine obtains while other goroutines run their own, unrelated calls = the reference value for its own arguments) is evaluated on the real code, model/impl equality is the tie for the Lean theorems in Props/C15.lean")
 }
 
